@@ -43,9 +43,9 @@ theorem take_three {α : Type} (P : List α) (a b c : α) (n : Nat) (h : n < (P 
     have hn : n = P.length + 1 ∨ n = P.length + 2 := by omega
     rcases hn with rfl | rfl
     · left; refine ⟨rfl, ?_⟩
-      rw [List.take_append]; simp
+      rw [List.take_append, List.take_of_length_le (Nat.le_succ _)]; simp
     · right; refine ⟨rfl, ?_⟩
-      rw [List.take_append]; simp
+      rw [List.take_append, List.take_of_length_le (by omega)]; simp
 
 /-- the disk after the data phase of a commit (head set appended, data barrier done) -/
 theorem commit_data_quiet (hL : L.OK) {w : Writer} {d : Disk} {done : Option Root} {D : Nat}
@@ -93,9 +93,20 @@ theorem run_safe (hL : L.OK) :
         exact q'.safe hL _ _ hfut χ
       | commit heads refs fact =>
         simp only [Writer.step] at hn ⊢
-        rw [commit_ops] at hn ⊢
-        rcases take_three _ _ _ _ n hn with ⟨hle, ht⟩ | ⟨hle, ht⟩ | ⟨hle, ht⟩
-        · rw [ht]
+        have hops := commit_ops L ck w heads fact
+        have hn' := hn
+        rw [hops] at hn'
+        have hfut' : ∀ rec ∈ recsOf L ck (w.commit L ck heads fact).1 cs,
+            w.root.free.toNat + 4 + heads.length ≤ rec.off := by
+          intro rec hr
+          have := recsOf_off_ge L ck cs _ rec hr
+          rw [commit_root] at this
+          simp only [commitRoot, Int.toNat_natCast] at this
+          exact this
+        rcases take_three _ _ _ _ n hn' with ⟨hle, ht⟩ | ⟨hle, ht⟩ | ⟨hle, ht⟩
+        · have ht' : (w.commit L ck heads fact).2.take n =
+              ((w.appendAt L heads).2.2 ++ [Op.fdatasync]).take n := by rw [hops]; exact ht
+          rw [ht']
           obtain ⟨D', q'⟩ := Quiet.execAll_data hL _ d D h.q
             (fun o ho => commit_prefix_data L w heads h.fs o (List.mem_of_mem_take ho))
           exact q'.safe hL _ _ hfut χ
@@ -103,43 +114,28 @@ theorem run_safe (hL : L.OK) :
           have hT := hck.1
           simp only [commit_ops, commit_root] at hT
           rw [List.take_left' (by simp)] at hT
-          rw [ht, execAll_append]
-          have hlen : (((w.appendAt L heads).2.2 ++ [Op.fdatasync]) ++
-              [Op.write w.nextRoot (be32Enc (encBody (commitRoot ck w heads fact)).length),
-               Op.write (w.nextRoot + lenPrefixLen) (encBody (commitRoot ck w heads fact)),
-               Op.fdatasync]).length ≤ n + 2 := by
-            simp only [List.length_append, List.length_cons, List.length_nil] at hle ⊢; omega
-          simp only [hlen, if_true, commit_root]
-          have := torn_safe hL q1 (new := commitRoot ck w heads fact) rfl rfl hT
-            ((d.execAll ((w.appendAt L heads).2.2 ++ [.fdatasync])).exec
-              (.write w.nextRoot (be32Enc (encBody (commitRoot ck w heads fact)).length))).crash χ)
-            (crash_pre _ hp1 _ _ χ) (recsOf L ck (w.commit L ck heads fact).1 cs)
-            (fun rec hr => by
-              have := recsOf_off_ge L ck cs _ rec hr
-              rw [commit_root] at this
-              simpa [commitRoot] using this)
-          simpa [Disk.execAll, Call.toRec] using this
+          have ht' := ht
+          rw [← hops] at ht'
+          have hlen : (w.commit L ck heads fact).2.length ≤ n + 2 := by
+            rw [hops]; simp only [List.length_append, List.length_cons, List.length_nil] at hle ⊢; omega
+          simp only [hlen, ↓reduceIte]
+          rw [ht', execAll_append, commit_root]
+          have := torn_safe hL q1 (new := commitRoot ck w heads fact) rfl rfl hT _
+            (crash_pre _ hp1 _ _ χ) (recsOf L ck (w.commit L ck heads fact).1 cs) hfut'
+          simpa [Disk.execAll, Disk.exec, Call.toRec] using this
         · obtain ⟨q1, hp1⟩ := commit_data_quiet hL h heads refs
           have hT := hck.1
           simp only [commit_ops, commit_root] at hT
           rw [List.take_left' (by simp)] at hT
-          rw [ht, execAll_append]
-          have hlen : (((w.appendAt L heads).2.2 ++ [Op.fdatasync]) ++
-              [Op.write w.nextRoot (be32Enc (encBody (commitRoot ck w heads fact)).length),
-               Op.write (w.nextRoot + lenPrefixLen) (encBody (commitRoot ck w heads fact)),
-               Op.fdatasync]).length ≤ n + 2 := by
-            simp only [List.length_append, List.length_cons, List.length_nil] at hle ⊢; omega
-          simp only [hlen, if_true, commit_root]
-          have := torn_safe hL q1 (new := commitRoot ck w heads fact) rfl rfl hT
-            ((((d.execAll ((w.appendAt L heads).2.2 ++ [.fdatasync])).exec
-              (.write w.nextRoot (be32Enc (encBody (commitRoot ck w heads fact)).length))).exec
-              (.write (w.nextRoot + lenPrefixLen) (encBody (commitRoot ck w heads fact)))).crash χ)
-            (crash_pre_body _ hp1 _ _ χ) (recsOf L ck (w.commit L ck heads fact).1 cs)
-            (fun rec hr => by
-              have := recsOf_off_ge L ck cs _ rec hr
-              rw [commit_root] at this
-              simpa [commitRoot] using this)
-          simpa [Disk.execAll, Call.toRec] using this
+          have ht' := ht
+          rw [← hops] at ht'
+          have hlen : (w.commit L ck heads fact).2.length ≤ n + 2 := by
+            rw [hops]; simp only [List.length_append, List.length_cons, List.length_nil] at hle ⊢; omega
+          simp only [hlen, ↓reduceIte]
+          rw [ht', execAll_append, commit_root]
+          have := torn_safe hL q1 (new := commitRoot ck w heads fact) rfl rfl hT _
+            (crash_pre_body _ hp1 _ _ χ) (recsOf L ck (w.commit L ck heads fact).1 cs) hfut'
+          simpa [Disk.execAll, Disk.exec, Call.toRec] using this
     · -- the call completed: continue with the invariant after it
       have hge : (w.step L ck c).2.length ≤ n := Nat.le_of_not_lt hn
       have htake : (trace L ck w (c :: cs)).take n =
@@ -147,9 +143,7 @@ theorem run_safe (hL : L.OK) :
         simp only [trace]
         rw [List.take_append, List.take_of_length_le hge]
       have hinv : ∃ D', WInv L ck (w.step L ck c).1 (d.execAll (w.step L ck c).2)
-          (match c with
-           | .commit _ _ _ => some (w.step L ck c).1.root
-           | .append _ _ => done) D' (recs ++ [c.toRec w]) := by
+          (c.doneAfter (w.step L ck c).1.root done) D' (recs ++ [c.toRec w]) := by
         cases c with
         | append b refs => exact append_inv hL h b refs
         | commit heads refs fact =>
@@ -157,9 +151,13 @@ theorem run_safe (hL : L.OK) :
           have hb : (commitRoot ck w heads fact).Bounded := by
             have := hbd.1; simp only [commit_root] at this; exact this
           have q3 := commit_done hL q1 hp1 hb (commitRoot_valid ck w heads fact) rfl rfl
-          refine ⟨_, ?_, ?_, ?_⟩
-          · simp only [Writer.step, commit_next, commit_root, commit_ops, execAll_append]
-            simpa [commitRoot, Disk.execAll, Disk.exec, Call.toRec] using q3
+          refine ⟨w.root.free.toNat + 4 + heads.length, ⟨?_, ?_, ?_⟩⟩
+          · have e1 : (commitRoot ck w heads fact).free.toNat = w.root.free.toNat + 4 + heads.length := by
+              simp only [commitRoot, Int.toNat_natCast]
+            have e2 : (commitRoot ck w heads fact).gen = w.root.gen + 1 := rfl
+            simp only [Writer.step, Call.doneAfter, Call.toRec]
+            rw [commit_next, commit_ops, execAll_append, commit_root, e1, e2]
+            exact q3
           · simp only [Writer.step, commit_root, commitRoot]; omega
           · simp only [Writer.step, commit_root, commitRoot, Int.toNat_natCast]; have := h.fs; omega
       obtain ⟨D', hinv'⟩ := hinv
